@@ -17,8 +17,8 @@ Print Assumptions C12_same_coordinates.
 Theorem C12_engine : forall d author ts edits orc,
   let nd := normalize_doc d in
   let '(d', ap, sk, out) := apply_edits d author ts edits orc in
-  Rel (scan_ids nd) (next_comment_id nd) nd d' /\ (out = 0 -> ap + sk = length edits).
-Proof. exact engine_rel. Qed.
+  (wf_ids nd -> RelG (scan_ids nd) (next_comment_id nd) (d_next_uid nd) nd d') /\ (out = 0 -> ap + sk = length edits).
+Proof. exact engine_contract. Qed.
 Print Assumptions C12_engine.
 (* stage 4: accept-all is the accepted view of the tape *)
 Theorem C12_accept_all : forall n st, existsb is_del st = false -> atoms_l [] (accept_all_node n) = flat_map acc_view (atoms st n).
